@@ -294,7 +294,7 @@ Section Protocol.
       pose proof (i_errs _ _ I) as He.
       destruct (s_pc sv) eqn:Ep.
       + destruct (bound_any (net s) (addr (s_cfg sv))) eqn:Eb.
-        * exists (LBindFail sid). unfold srv_at. rewrite ?Hn, ?Ep, ?Hsh, ?Eb. split; [reflexivity|discriminate].
+        * exists (LBindFail sid). unfold srv_at. rewrite ?Hn, ?Ep, ?Hsh, ?Eb. cbn. rewrite ?Eb. split; [reflexivity|discriminate].
         * exists (LBindOk sid). unfold srv_at. rewrite ?Hn, ?Ep, ?Hsh, ?Eb. split; [reflexivity|discriminate].
       + destruct (bound_any (net s) (addr (s_cfg sv))) eqn:Eb.
         * exists LProbeOk. rewrite ?Ek. unfold srv_at. rewrite ?Hn, ?He, ?Ep, ?Eb. cbn. unfold boot_ok.
